@@ -1,0 +1,17 @@
+//! Verification-only constructor (compiled only with `--cfg libp2p_verif`): build the DNS
+//! transport over any [`Resolver`](crate::Resolver), e.g. a simulated one. No logic of its own.
+
+use std::sync::Arc;
+
+use parking_lot::Mutex;
+
+use crate::Transport;
+
+impl<T, R> Transport<T, R> {
+    pub fn verif_with_resolver(inner: T, resolver: R) -> Self {
+        Transport {
+            inner: Arc::new(Mutex::new(inner)),
+            resolver,
+        }
+    }
+}
